@@ -30,6 +30,7 @@ import Pandora.Proofs.C03Comp
 import Pandora.Bridge.C03Comp
 import Pandora.Proofs.C03Pool
 import Pandora.Bridge.C03Pool
+import Pandora.Proofs.C03Leaf
 
 namespace Pandora.Props.C03
 open Pandora.Model.C03 Pandora.Proofs.C03
@@ -774,4 +775,82 @@ example : (Pandora.Model.C03Pool.exec Pandora.Model.C03Pool.onAwait .ctxErr {}
     (Pandora.Model.C03Pool.goroutine [] [.closeAwaitErr, .awaitRun] [.waitDone]) Pandora.Model.C03Pool.poolRun {}).ret
     = some .nil := by decide
 
+
+/-! ### composition with the REGENERATED schedule leaf of area `schedule` (`Pandora.Proofs.C03Leaf`) -/
+
+section Leaf
+open Pandora.Proofs.C03Leaf Pandora.Gen.Schedule Pandora.Bridge.C03DoAt
+
+/-- **the pool over the regenerated leaf IS the pool over a token counter**: let every `Left()` / `Next()` answer be COMPUTED
+by the functions regenerated from core/schedule/do_at.go on the leaf object the instance draws from (the shared one, or the
+one the factory made at its start; profile `NewDoAtSchedule duration n doAt` = `once`, `const`, `line`, a step of `step`).
+Every run of that product, for every interleaving and every reading of the clock, is a run of `Model.C03` with
+`tokens = n` (clamped at 0), and at every moment the model's counters are the tokens left in the leaf objects -/
+theorem C03_leaf_composed (c : Cfg) (p : Leaf) (hn : c.tokens = p.n.toNat) (es : List (Int × Ev)) (l : LSt)
+    (h : lrun c p (linit c p) es = some l) :
+    run c (init c) (es.map (·.2)) = some l.pool ∧ l.pool.shared = tokensLeft l.sh ∧
+    l.pool.own = l.own.map tokensLeft :=
+  let ⟨hr, ha⟩ := lrun_is_run hn h
+  ⟨hr, ha.shared, ha.own⟩
+
+/-- … and the product is no artificial restriction: an instance standing at `Wait` can always go on, with exactly the event
+the regenerated `Next()` of its leaf dictates (`tokOk` iff it answers ok, and it answers ok iff the model has a token
+left); an instance standing at `IsFinished` goes on with the value the regenerated `Left()` returns, which is the model's -/
+theorem C03_leaf_never_blocks (c : Cfg) (p : Leaf) (hn : c.tokens = p.n.toNat) (es : List (Int × Ev)) (l : LSt)
+    (h : lrun c p (linit c p) es = some l) (i : Nat) (now : Int) :
+    (l.pool.pcs[i]? = some .wait →
+      ∃ d tx ok d' l', l.prof c i = some d ∧ doAtSchedule_Next now d = .ok ((tx, ok), d') ∧
+        ok = decide (0 < l.pool.left c i) ∧ lstep c p l now (if ok then .tokOk i else .tokEnd i) = some l') ∧
+    (l.pool.pcs[i]? = some .check →
+      ∃ d l', l.prof c i = some d ∧ doAtSchedule_Left d = .ok ((l.pool.left c i : Int), d) ∧
+        lstep c p l now (.chk i (l.pool.left c i)) = some l') :=
+  ⟨fun hw => next_never_blocks hn h i hw now, fun hw => left_never_blocks hn h i hw now⟩
+
+/-- **fired + discarded = min(tokens of the regenerated profile, ammo)** — the main clause stated over the schedule code
+itself: the tokens are the `n` of the regenerated leaf, one leaf shared or one fresh leaf per started instance -/
+theorem C03_leaf_total (c : Cfg) (p : Leaf) (hn : c.tokens = p.n.toNat) (es : List (Int × Ev)) (l : LSt)
+    (h : lrun c p (linit c p) es = some l) (ht : l.pool.terminal = true) (hN : 0 < l.pool.started) :
+    l.pool.fired + l.pool.discarded =
+      minOpt (if c.perInstance then l.pool.started * p.n.toNat else p.n.toNat) c.ammo := by
+  have := C03_total c _ l.pool (lrun_is_run hn h).1 ht hN
+  simpa [St.totalTokens, hn] using this
+
+/-- the other clauses over the regenerated leaf: released exactly once, never used while not held, the unfired bounds,
+Request = Response = fired; and when the pool has ended no leaf has a token left unless the ammo ran out -/
+theorem C03_leaf_release_unfired_metrics (c : Cfg) (p : Leaf) (hn : c.tokens = p.n.toNat) (es : List (Int × Ev)) (l : LSt)
+    (h : lrun c p (linit c p) es = some l) (ht : l.pool.terminal = true) :
+    (l.pool.acquired = l.pool.released ∧ (∀ k, k < l.pool.acquired → l.pool.rels[k]? = some 1) ∧ l.pool.badUse = false) ∧
+    (c.perInstance = false → l.pool.acquired - (l.pool.fired + l.pool.discarded) ≤ l.pool.started - 1) ∧
+    (c.perInstance = true → l.pool.acquired = l.pool.fired + l.pool.discarded) ∧
+    l.pool.request = l.pool.fired ∧ l.pool.response = l.pool.fired :=
+  let hr := (lrun_is_run hn h).1
+  ⟨⟨(C03_release c _ l.pool hr ht).1, fun k hk => C03_release_exactly_once c _ l.pool hr ht k hk, C03_never_bad_use c _ l.pool hr⟩,
+   fun hc => (C03_unfired_shared c _ l.pool hc hr ht).1, fun hc => C03_unfired_per_instance c _ l.pool hc hr ht,
+   C03_metrics c _ l.pool hr ht⟩
+
+end Leaf
+
+-- `C03_leaf_*`: two instances on ONE regenerated `once(1)` leaf (duration 0, n = 1), unbounded ammo; the clock reads 7, 8, 9 …;
+-- instance 1 is told "finished" by the leaf's second `Next()`: terminal, started = 2, 1 fired, 1 unfired, the leaf's counter at 2
+example : ∃ l, Pandora.Proofs.C03Leaf.lrun ⟨false, 1, none, false, 2⟩ ⟨0, 1, fun _ => 0⟩
+      (Pandora.Proofs.C03Leaf.linit ⟨false, 1, none, false, 2⟩ ⟨0, 1, fun _ => 0⟩)
+    [(7, .start 0), (7, .chk 0 1), (7, .start 1), (7, .chk 1 1), (8, .acq 0), (8, .acq 1), (9, .tokOk 0), (9, .tokEnd 1),
+     (9, .reqAdd 0), (9, .shoot 0 0), (9, .respAdd 0), (9, .rel 1 1), (9, .rel 0 0), (9, .chk 0 0), (9, .chk 1 0)] = some l ∧
+    l.pool.terminal = true ∧ l.pool.started = 2 ∧ l.pool.fired = 1 ∧ l.pool.unfired = 1 ∧ l.sh.i = 2 := by
+  refine ⟨_, rfl, by decide, by decide, by decide, by decide, by decide⟩
+
+-- … the product refuses an answer the leaf does not give: a second token from `once(1)`
+example : Pandora.Proofs.C03Leaf.lrun ⟨false, 1, none, false, 2⟩ ⟨0, 1, fun _ => 0⟩
+      (Pandora.Proofs.C03Leaf.linit ⟨false, 1, none, false, 2⟩ ⟨0, 1, fun _ => 0⟩)
+    [(7, .start 0), (7, .chk 0 1), (7, .start 1), (7, .chk 1 1), (8, .acq 0), (8, .acq 1), (9, .tokOk 0), (9, .tokOk 1)] = none := by
+  decide
+
+-- … rps-per-instance: each started instance gets a fresh leaf of its own (2 started × once(1) = 2 fired)
+example : ∃ l, Pandora.Proofs.C03Leaf.lrun ⟨true, 1, none, false, 2⟩ ⟨0, 1, fun _ => 0⟩
+      (Pandora.Proofs.C03Leaf.linit ⟨true, 1, none, false, 2⟩ ⟨0, 1, fun _ => 0⟩)
+    [(1, .start 0), (1, .chk 0 1), (1, .acq 0), (2, .tokOk 0), (2, .reqAdd 0), (2, .shoot 0 0), (2, .respAdd 0), (2, .rel 0 0),
+     (3, .chk 0 0), (3, .start 1), (3, .chk 1 1), (3, .acq 1), (4, .tokOk 1), (4, .reqAdd 1), (4, .shoot 1 1), (4, .respAdd 1),
+     (4, .rel 1 1), (5, .chk 1 0)] = some l ∧
+    l.pool.terminal = true ∧ l.pool.fired = 2 ∧ (l.own.map (·.i)) = [1, 1] := by
+  refine ⟨_, rfl, by decide, by decide, by decide⟩
 end Pandora.Props.C03
